@@ -991,6 +991,10 @@ class TaintInterp:
             if key == "_nx_name":
                 return seq(self.node(g=g), order, oid)
             return seq(sc(g.x.get(key, E)), order, oid)
+        if b.kind == "edgeview":            # m.edges[u, v]: the data dict of one bond
+            return V("edgedata", kt, x=b.x)
+        if b.kind == "edgedata":
+            return sc(b.t | kt)
         if b.kind == "graph":               # m[a] adjacency
             return seq(self.node(g=b), self.src(ORDER, fi, e, "m[a]: neighbour listing order"), ("adj", id(e)))
         if b.kind in ("bound", "func"):
@@ -1555,6 +1559,12 @@ class TaintInterp:
                 return V("igraph", x=recv.x, ot=recv.ot | (tt(p) if p is not None else E), oid=("perm", id(e)), items=recv.items)
             if name in ("vcount", "ecount"):
                 return sc()
+        if k == "edgedata":
+            if name in ("update", "clear", "pop", "setdefault"):
+                self.notes.append(f"bond data written at {fi.loc(e)} (bond data is not read by the pipeline: R-ATTRREAD)")
+                return V("none")
+            if name in ("get", "items", "keys", "values", "copy"):
+                return sc(recv.t | allt)
         if k == "map":
             if name == "values":
                 return seq(recv.elem, recv.ot, recv.oid)
